@@ -24,6 +24,15 @@ def cfield? (j : Json) (k : String) : Option C := do
   | [r, m] => some ⟨r, m⟩
   | _ => none
 
+/-- `Π_a exp(sign·2πi·(j_a f_a mod d_a)/d_a)` over the digits of `f`, `j` w.r.t. `dims` (row-major): entry of the N-d DFT matrix -/
+def kronRoot : List Nat → Nat → Nat → Float → C
+  | [], _, _, _ => ⟨1.0, 0.0⟩
+  | d :: ds, f, jx, sign =>
+    let r := ds.foldl (· * ·) 1
+    let k := ((jx / r % d) * (f / r % d)) % d
+    let t := sign * 2.0 * 3.141592653589793 * k.toFloat / d.toFloat
+    (⟨Float.cos t, Float.sin t⟩ : C) * kronRoot ds (f % r) (jx % r) sign
+
 /-- one leaf of the environment -/
 def parseLeaf (j : Json) : Option (Op C) := do
   let t ← fStr? j "t"
@@ -47,21 +56,24 @@ def parseLeaf (j : Json) : Option (Op C) := do
     let n ← fNat? j "n"
     let Ma := carr (← fFloats? j "Mr") (← fFloats? j "Mi")
     some (Op.mat m n (matOf n Ma))
+  | "diag" =>
+    let n ← fNat? j "n"
+    let da := carr (← fFloats? j "dr") (← fFloats? j "di")
+    some (Op.diag n (vecOf da))
   | "circ" =>
     let k ← fNat? j "k"
     let n ← fNat? j "n"
     let ha := carr (← fFloats? j "hr") (← fFloats? j "hi")
     some (Op.circBatch k n (vecOf ha))
   | "spec" =>
-    -- CircularConvolve as coded (transform domain), 1-D: F = fft matrix, G = ifft matrix, D = the object's own h_dft
-    let n ← fNat? j "n"
+    -- CircularConvolve as coded (transform domain): F = fftn matrix over the convolution axes `dims` (Kronecker product
+    -- of the 1-D transforms), G = ifftn matrix, D = the object's own h_dft (one batch entry, flattened)
+    let dims ← fNats? j "dims"
+    let n := dims.foldl (· * ·) 1
     let Da := carr (← fFloats? j "Dr") (← fFloats? j "Di")
     let wrap ← fStr? j "wrap"
-    let rootPow (k : Nat) (sign : Float) : C :=
-      let t := sign * 2.0 * 3.141592653589793 * (k % n).toFloat / n.toFloat
-      ⟨Float.cos t, Float.sin t⟩
-    let F : Nat → Nat → C := fun f jx => rootPow (jx * f) (-1.0)
-    let G : Nat → Nat → C := fun i f => let z := rootPow (i * f) 1.0; ⟨z.re / n.toFloat, z.im / n.toFloat⟩
+    let F : Nat → Nat → C := fun f jx => kronRoot dims f jx (-1.0)
+    let G : Nat → Nat → C := fun i f => let z := kronRoot dims i f 1.0; ⟨z.re / n.toFloat, z.im / n.toFloat⟩
     let A := Op.spectral n F G (vecOf Da)
     let re : C → C := fun z => ⟨z.re, 0.0⟩
     some (match wrap with
@@ -277,6 +289,47 @@ def typesHandler (j : Json) : Option Json := do
     ("ish", jShp A.ish), ("osh", jShp A.osh), ("idt", jS (dtName A.idt)), ("odt", jS (dtName A.odt)),
     ("call", jArr (px.map (fun x => jR (A.call x)))), ("adj", jArr (py.map (fun y => jR (A.adjC y))))]))
 
+/-- right-hand sides of the theorems `C01_diagonal_overrides` / `C01_matrix_overrides`: the operator a class-specific
+    override builds, from the operand data -/
+def closedOp (j : Json) : Option (Op C) := do
+  let cls ← fStr? j "cls"
+  let form ← fStr? j "form"
+  let c := (cfield? j "c").getD ⟨1.0, 0.0⟩
+  match cls with
+  | "diag" =>
+    let n ← fNat? j "n"
+    let d := vecOf (carr (← fFloats? j "dr") (← fFloats? j "di"))
+    let e := vecOf (carr ((fFloats? j "er").getD []) ((fFloats? j "ei").getD []))
+    match form with
+    | "conj" | "H" => some (Op.diag n (vconj d))
+    | "T" => some (Op.diag n d)
+    | "gram" => some (Op.diag n (fun i => conj (d i) * d i))
+    | "add" => some (Op.diag n (vadd d e))
+    | "sub" => some (Op.diag n (vsub d e))
+    | "smul" => some (Op.diag n (vsmul c d))
+    | "sdiv" => some (Op.diag n (vsdiv d c))
+    | "comp" => some (Op.diag n (fun i => d i * e i))
+    | _ => none
+  | "mat" =>
+    let m ← fNat? j "m"
+    let n ← fNat? j "n"
+    let A := matOf n (carr (← fFloats? j "Ar") (← fFloats? j "Ai"))
+    let bm := (fNat? j "bm").getD m
+    let bn := (fNat? j "bn").getD n
+    let B := matOf bn (carr ((fFloats? j "Br").getD []) ((fFloats? j "Bi").getD []))
+    match form with
+    | "H" => some (Op.mat n m (fun jx i => conj (A i jx)))
+    | "conj" => some (Op.mat m n (fun i jx => conj (A i jx)))
+    | "T" => some (Op.mat n m (fun jx i => A i jx))
+    | "gram" => some (Op.mat n n (matMul m (fun jx i => conj (A i jx)) A))
+    | "add" => some (Op.mat m n (fun i jx => A i jx + B i jx))
+    | "sub" => some (Op.mat m n (fun i jx => A i jx - B i jx))
+    | "smul" => some (Op.mat m n (fun i jx => c * A i jx))
+    | "sdiv" => some (Op.mat m n (fun i jx => A i jx / c))
+    | "comp" => if n == bm then some (Op.mat m bn (matMul n A B)) else none
+    | _ => none
+  | _ => none
+
 def handler : Handler := fun op j =>
   match op with
   | "derive" => do
@@ -290,6 +343,10 @@ def handler : Handler := fun op j =>
       some (ok (jObj [("nin", jN A.nin), ("nout", jN A.nout),
         ("eval", probe A.eval A.nin A.nout), ("adj", probe A.adj A.nout A.nin)]))
   | "types" => typesHandler j
+  | "closed" => do
+    let A ← closedOp j
+    some (ok (jObj [("nin", jN A.nin), ("nout", jN A.nout),
+      ("eval", probe A.eval A.nin A.nout), ("adj", probe A.adj A.nout A.nin)]))
   | "smulre" => do
     -- complex scalar times an operator with a real output space: `Op.smulRe` on one measured leaf
     let leaves ← (← fList? j "leaves").mapM parseLeaf
